@@ -89,7 +89,8 @@ def stub_ol_name():
         c = ctx()
         n = sum(1 for e in c.trace if e and e[0] == "ol_name")
         c.log("ol_name", fmt)
-        return Hole(("fresh", n, fmt), "ident", fresh=True)
+        # one fresh name per call: inside a generic round the name depends on the round
+        return Hole(("fresh", n, fmt) + tuple(j for (_, j) in c.generic), "ident", fresh=True)
     return f
 
 
